@@ -340,13 +340,18 @@ End Lexical.
    call fails the builder panics; `recovers` says whether buildAppDefs turns that panic into an error
    (pkg/parser/impl.go since the repair of C16-F1; read off the source by translator/parts/c16.py) or
    lets it escape. *)
-Inductive verdict := VCompiled (d : defn) | VError | VPanic.
+(* VInvalid: the parser returns no error, builder.Build() refuses the definition.  It happens for the
+   schemas that break only a rule the analyser does not check itself (`wf_p ck` holds, `wf` does not):
+   findings C16-F6 (view without partition key group), C16-F7 (GRANT ... ON ALL <class> matching nothing);
+   `ck` is read off the source. *)
+Inductive verdict := VCompiled (d : defn) | VError | VPanic | VInvalid.
 Definition refused (recovers : bool) : verdict := if recovers then VError else VPanic.
-Definition compile16_with (recovers : bool) (a : schema) : verdict :=
+Definition compile16_with (recovers : bool) (ck : pchecks) (a : schema) : verdict :=
   if wf a
   then if no_unique_collision a Go && builder_valid (compile_items a Go) then VCompiled (compile_items a Go) else refused recovers
-  else VError.
-Definition compile16 (a : schema) : verdict := compile16_with parser_recovers_builder_panics a.
+  else if wf_p a ck then VInvalid else VError.
+Definition go_checks : pchecks := PChecks parser_checks_view_partition_key parser_checks_grant_matches.
+Definition compile16 (a : schema) : verdict := compile16_with parser_recovers_builder_panics go_checks a.
 
 (* ------------------------------------------------------------------ traces *)
 
@@ -386,7 +391,8 @@ Definition agrees (t : trace) : bool :=
     && match compile16 a, out with
        | VCompiled d, Compiled items _ _ => builder_valid items && dump_match acl_cmp d items && to_built obs
        | VPanic, Rejected true => true
-       | VError, Rejected panicked => negb panicked || negb (wf a)
+       | VError, Rejected panicked => negb (to_accepted obs) && (negb panicked || negb (wf a))
+       | VInvalid, Rejected false => to_accepted obs && negb (to_built obs)
        | _, _ => false
        end
   | TBuilder d accepted => Bool.eqb (builder_valid d) accepted
